@@ -15,7 +15,7 @@ PROPS = {
         rule="case = pre-existing well-formed file(s) + 1-4 tests (prefix-related names) with 1-14 MatchSnapshot/MatchJSON/MatchYAML calls each; "
              "run 1 records with updating enabled, run 2 replays the same calls read-only (default / Update(false) / CI / UPDATE_SNAPS=clean) in a permuted test order, tests executed 1-3 times, optionally interleaved like parallel tests. "
              "Pre-existing files may have CRLF line ends; the first file may also be addressed through a second Config that spells its directory differently; values include defined string types. Lines include BOM-prefixed lines and lines of buffer-boundary lengths (4095-4097, 65535-65537). cross_build_replay stage (black box): a real test program records with a normal or -trimpath build and the other build replays read-only (CI or not, -count 1-2): no failure, no write. "
-             "Round 6: between the runs the multi-entry files are re-presented without their final newline or with CRLF line ends; tests of other runners (Benchmark…, Fuzz…/seed#0, Example…, custom names). Round 7: text pools hold literal backslash-r / backslash-n texts, terminal control sequences, invisible characters (NBSP, ZWJ, RLM), dashed lines that are not the terminator, percent signs and the library's own marker texts. non-trivial = the case contains a terminator/escape line, blank line, edge newline, empty body, header-looking line, invalid UTF-8, a line > 64 KiB, "
+             "Round 6: between the runs the multi-entry files are re-presented without their final newline or with CRLF line ends; tests of other runners (Benchmark…, Fuzz…/seed#0, Example…, custom names). Round 7: text pools hold literal backslash-r / backslash-n texts, terminal control sequences, invisible characters (NBSP, ZWJ, RLM), dashed lines that are not the terminator, percent signs and the library's own marker texts. Round 9: lines beyond 1 MiB and 4 MiB (now and then) among the long lines. non-trivial = the case contains a terminator/escape line, blank line, edge newline, empty body, header-looking line, invalid UTF-8, a line > 64 KiB, "
              ">= 10 calls in one test, >= 2 entry kinds in one file, a structured Go value, or pre-existing entries; distinct = distinct canonical JSON",
         assumptions=ASSUME_WB + ["carriage return at the end of a line (documented limitation) is excluded by construction and counted"],
         stages=[dict(name="replay", run="^TestC01_", quick=1000, thorough=6000, shards_quick=4, shards_thorough=16),
@@ -42,7 +42,7 @@ PROPS = {
         rule="case = history: 1-4 tests (prefix-related names, fixed call programs of 1-13 slots over 1-2 files) x 1-3 processes (mode: default / UPDATE_SNAPS=true / other / CI) "
              "x 1-4 executions per process (re-executions, partial executions) whose calls are interleaved like parallel tests, with failing calls (invalid JSON/YAML, failing matcher), "
              "per-call Update options, pre-existing foreign entries and optionally a conversion of all files to CRLF line ends between two processes, single calls through a differently spelled directory; after EVERY call the observed outcome is compared with a slot model and both files are re-parsed with the reference parser. "
-             "Round 6: tests of other runners (Benchmark…, Fuzz…/seed#0, Example…, custom names) whose entries hold lines that equal ids of other slots. Round 8: conflict-marker lines as content; the fake T answers Failed()/Skipped() like a *testing.T. non-trivial = >= 2 tests and at least one of: prefix-related names, re-execution, interleaving, calls after a failing call, >= 10 calls, header-like body, per-call update option; "
+             "Round 6: tests of other runners (Benchmark…, Fuzz…/seed#0, Example…, custom names) whose entries hold lines that equal ids of other slots. Round 8: conflict-marker lines as content; the fake T answers Failed()/Skipped() like a *testing.T. Round 9: MatchSnapshot(t) without values right before a call (a warning, no ordinal). non-trivial = >= 2 tests and at least one of: prefix-related names, re-execution, interleaving, calls after a failing call, >= 10 calls, header-like body, per-call update option; "
              "distinct = distinct canonical JSON of the history. concurrent_slots stage: the C06 scenario/schedule generator on the controlled scheduler (2-4 tests sharing a file, 0-3 preemptions): "
              "every call addresses its own slot and no slot is lost or reverted by another test's concurrent write",
         assumptions=ASSUME_WB + ["the history stage interleaves calls one at a time; preemption inside a call is explored by the concurrent_slots stage (statement granularity) and exhaustively by C06"],
@@ -55,7 +55,7 @@ PROPS = {
              "(UPDATE_SNAPS=true, or Update(true) under any UPDATE_SNAPS) in which a generated subset of calls changes value (shorter, longer, empty, terminator/header-like, multi-line; same length; multi-KiB), "
              "optionally after the recorded file was converted to CRLF line ends, optionally with other JSON options (indent/width/key sorting) in the update run than in the recording run (expected text computed with tidwall/pretty), "
              "then a read-only process. Checked per call: outcome, no write at all for unchanged values (mtime), only the addressed file written, entry list re-parsed with the reference parser "
-             "(no residue, others byte-identical and in place), standalone files equal the new formatted value. Round 6: calls that the update run rejects before the comparison (invalid JSON/YAML text, matcher on a missing path) between calls that rewrite their entries; tests of other runners. Round 8: `<file>.tmp` (longer than the file) lies next to the snapshot file; conflict-marker lines as content. non-trivial = a changed entry that is shorter, or >= 2 changed entries, "
+             "(no residue, others byte-identical and in place), standalone files equal the new formatted value. Round 6: calls that the update run rejects before the comparison (invalid JSON/YAML text, matcher on a missing path) between calls that rewrite their entries; tests of other runners. Round 8: `<file>.tmp` (longer than the file) lies next to the snapshot file; conflict-marker lines as content. Round 9: values with lines of 64 KiB … 4 MiB. non-trivial = a changed entry that is shorter, or >= 2 changed entries, "
              "or a changed non-last entry, or a standalone update; distinct = distinct canonical JSON",
         assumptions=ASSUME_WB + ["'no write' is observed through mtimes: every file is aged to a fixed past instant before each call"],
         stages=[dict(name="update", run="^TestC04_", quick=600, thorough=5000, shards_quick=4, shards_thorough=16)],
@@ -92,7 +92,7 @@ PROPS = {
              "Clean in every mode x sort; further dimensions: an addressed file converted to CRLF line ends, a file with an unterminated last entry, main directory names with glob metacharacters next to sibling directories, "
              "-test.cpu lists with empty elements, 36-60 addressed files while RLIMIT_NOFILE leaves 24 free descriptors during Clean, very long lines. real_runner stage: real -test.count/-test.run/-test.cpu. "
              "Oracle: every slot addressed in this process keeps its entry/standalone file byte-identical (line ends aside), is never listed, and a read-only replay passes. "
-             "Round 6: calls rejected before the comparison inside the run (still the k-th call), a Config with Update(false) on a never-recorded snapshot whose directory never comes into existence (visited all the same). Round 8: TMPDIR on another file system during Clean; tests that end through plain t.Skip; the run's configs carry Update(true/false); every recorded slot must lie where the naming rule puts it; Filename `v1.snapshots`, Ext `_golden`; sub test names with : ? * \" < > |. non-trivial = -count > 1, or a test with >= 10 calls, or standalone and multi-entry mixed, or stale neighbours present; distinct = distinct canonical JSON",
+             "Round 6: calls rejected before the comparison inside the run (still the k-th call), a Config with Update(false) on a never-recorded snapshot whose directory never comes into existence (visited all the same). Round 8: TMPDIR on another file system during Clean; tests that end through plain t.Skip; the run's configs carry Update(true/false); every recorded slot must lie where the naming rule puts it; Filename `v1.snapshots`, Ext `_golden`; sub test names with : ? * \" < > |. Round 9: snaps.Skip(t) without a reason; programs that make only standalone calls. non-trivial = -count > 1, or a test with >= 10 calls, or standalone and multi-entry mixed, or stale neighbours present; distinct = distinct canonical JSON",
         assumptions=ASSUME_WB + ["Clean is the exported function driven in-process with test.run/test.count set through the flag package; -run values always select every executed test"],
         stages=[dict(name="clean_keeps", run="^TestC07_", quick=400, thorough=4000, shards_quick=4, shards_thorough=16),
                 dict(name="real_runner", engine="bb", run="^TestC07BB_", quick=30, thorough=400, shards_quick=4, shards_thorough=16)],
@@ -103,7 +103,7 @@ PROPS = {
              "multi-level patterns, anchors, patterns matching only a subtest name or a digit), Clean in report/clean mode x sort, plus stale entries of prefix siblings and children of skipped tests. "
              "The program itself reports which tests started (the real runner is the oracle). Oracle: every item recorded for a test (or part of a test) that did not run survives byte-identically and is not listed; "
              "conversely (no -run) stale entries not protected by a skip are reported/removed. Losses matching the signatures of known findings K2-K5 are exempted and counted; K2-K5 are probed by minimal programs. "
-             "Round 6: -count=2/3 with tests that call snaps.Skip* only from their k-th execution on (plus a test that skips every time), everything in one shared file: nothing listed, nothing removed. Round 7: -run groups of three and more alternatives (`^(TestAlpha|TestB|TestGamma)$`, also per level); a test file that holds test-like declarations only inside a block comment and a raw string. Round 8: a snapshot directory nested in the default one whose tests all call snaps.Skip*; a file named after alpha_test.go shared by tests of every test file. non-trivial = a skip or a -run filter is present; distinct = distinct canonical JSON",
+             "Round 6: -count=2/3 with tests that call snaps.Skip* only from their k-th execution on (plus a test that skips every time), everything in one shared file: nothing listed, nothing removed. Round 7: -run groups of three and more alternatives (`^(TestAlpha|TestB|TestGamma)$`, also per level); a test file that holds test-like declarations only inside a block comment and a raw string. Round 8: a snapshot directory nested in the default one whose tests all call snaps.Skip*; a file named after alpha_test.go shared by tests of every test file. Round 9: snaps.Skip(t) without a reason; runs in which every test of the program skips (no Match* call at all). non-trivial = a skip or a -run filter is present; distinct = distinct canonical JSON",
         assumptions=["black-box: scenario program compiled against /repo; snapshot directory is the program's own __snapshots__ (cleaned between cases)",
                      "known findings K2-K5 (DESIGN §7) are exempted by predicate: sole-owner files of skipped tests, whole-id regexp, non-default file names under -run, file heuristic"],
         stages=[
@@ -116,7 +116,7 @@ PROPS = {
              "stale entries (absent tests, ordinals beyond the calls), stale multi-entry and standalone files, unrelated files, sub-directories (one named sub.snap), an unaddressed directory, -count 1-3, all modes x sort, "
              "directory names with glob metacharacters + siblings, -test.cpu lists, more addressed files (36-60) than free descriptors (24) during Clean, a read-only tree during Clean (file-system uid of the thread unprivileged; scenarios in which Clean has to write are excluded). "
              "Skip* never return (as with a real testing.T). Oracle: reported set contains every stale item of the model, no addressed item and no entry of a skip-protected test; removed iff reported and deletion allowed; everything else byte- and mtime-identical. "
-             "Round 6: rejected calls and never-created visited directories as in C07. Round 8: as C07 (foreign TMPDIR, plain t.Skip, Update options in the run, name shapes). non-trivial = at least one stale entry and one stale file present; distinct = distinct canonical JSON",
+             "Round 6: rejected calls and never-created visited directories as in C07. Round 8: as C07 (foreign TMPDIR, plain t.Skip, Update options in the run, name shapes). Round 9: as C07 (bare Skip, standalone-only programs: stale standalone files must still be reported). non-trivial = at least one stale entry and one stale file present; distinct = distinct canonical JSON",
         assumptions=ASSUME_WB + ["skip-protected entries are exempt from the completeness demand (C08 judges them)"],
         stages=[dict(name="clean_reports", run="^TestC09_", quick=400, thorough=5000, shards_quick=4, shards_thorough=16)],
     ),
@@ -132,7 +132,7 @@ PROPS = {
     "C14": dict(
         rule="case = JSON tree (distinct keys incl. empty/unicode/escaped/dotted, numbers of all shapes as literals, escapes, depth <= 5) x presentations (insignificant whitespace incl. CR/TAB, member permutation) "
              "x input form (string/[]byte/Go value) x options (default, or Width/Indent/SortKeys) x API (MatchJSON/MatchStandaloneJSON), plus one invalid text (truncation, dropped quote/brace, trailing comma, "
-             "bad literals, non-JSON whitespace padding, trailing data) judged invalid by encoding/json. Oracles: relations (1)-(5) of DESIGN §6/C14. Round 6: typed nil containers and pointers ([]any(nil), map[string]any(nil), (*int)(nil), zero structs with nil slices/maps) inside Go values: stored like their standard encoding (null). Round 7: an invalid text (stray brace, second document, trailing text, lost colon) when the slot already holds the valid document, in default / update / CI mode: rejected, nothing written; Go values implementing error, fmt.Stringer, encoding.TextMarshaler (also as map keys), time.Time / time.Duration. Round 8: a valid document that differs from the stored one in the LAST digit of a 16+ digit number (else in one digit/letter) is reported read-only and written when updating. non-trivial = every case (each carries an invalid input); "
+             "bad literals, non-JSON whitespace padding, trailing data) judged invalid by encoding/json. Oracles: relations (1)-(5) of DESIGN §6/C14. Round 6: typed nil containers and pointers ([]any(nil), map[string]any(nil), (*int)(nil), zero structs with nil slices/maps) inside Go values: stored like their standard encoding (null). Round 7: an invalid text (stray brace, second document, trailing text, lost colon) when the slot already holds the valid document, in default / update / CI mode: rejected, nothing written; Go values implementing error, fmt.Stringer, encoding.TextMarshaler (also as map keys), time.Time / time.Duration. Round 8: a valid document that differs from the stored one in the LAST digit of a 16+ digit number (else in one digit/letter) is reported read-only and written when updating. Round 9: top-level strings whose content is JSON text (`\"{}\"`, `\"[1]\"`). non-trivial = every case (each carries an invalid input); "
              "classes record depth >= 2, exotic numbers, escapes, option kinds; distinct = distinct canonical JSON. Further stages inside the case: one []byte buffer rewritten in place with same-length documents between assertions "
              "(each must store what a fresh process stores). TestC14_DeepNesting: enumerated documents nested 1..10002 levels (thorough ..65536; arrays <= 4096 quick / 10002 thorough because the pretty printer is quadratic), three input forms, "
              "oracle independent of encoding/json (stored text minus whitespace == input)",
@@ -156,7 +156,7 @@ PROPS = {
              "merged form: all masked paths in ONE Any with ErrOnMissingPath(false), interleaved with paths that do not exist and are textual prefixes / extensions of the existing ones (sibling keys sharing a prefix); keys `$`, `a:b`; "
              "matcher values reused after a warm-up document; tables masked through `#` / `#(query)` / `[*]` paths (empty arrays as masked values, records lacking the member); YAML input optionally a stream holding the document twice; changed numbers include the integer neighbour (last digit +-1, ids beyond 2^53). "
              "Oracle: stored(D) == stored(D') byte-for-byte, each replays read-only against the other's snapshot without writing, D'' reports exactly one error. "
-             "Round 6: flat records masked by ONE Type matcher listing 3-6 paths out of document order with values of 1-15 digits / 0-20 bytes (every replacement shifts the rest by another amount); enumerated documents of 10 050-33 000 rows (json, sjson, yaml) differing at row 3, middle, 10 001 or last. Round 7: JSON input in the ASCII-only spelling (every non-ASCII character of keys and strings as \\uXXXX); YAML literal block scalars whose variants differ only in blanks in front of a line break. Round 8: single-quoted YAML strings holding ` #` and `: `; unmasked strings mentioning `interface {}` next to Type placeholders. non-trivial = at least one masked path and D' differs textually from D; the D'' class is counted separately; distinct = distinct canonical JSON",
+             "Round 6: flat records masked by ONE Type matcher listing 3-6 paths out of document order with values of 1-15 digits / 0-20 bytes (every replacement shifts the rest by another amount); enumerated documents of 10 050-33 000 rows (json, sjson, yaml) differing at row 3, middle, 10 001 or last. Round 7: JSON input in the ASCII-only spelling (every non-ASCII character of keys and strings as \\uXXXX); YAML literal block scalars whose variants differ only in blanks in front of a line break. Round 8: single-quoted YAML strings holding ` #` and `: `; unmasked strings mentioning `interface {}` next to Type placeholders. Round 9: Custom callbacks that return nil (stored as null). non-trivial = at least one masked path and D' differs textually from D; the D'' class is counted separately; distinct = distinct canonical JSON",
         assumptions=ASSUME_WB + ["Type[any] is excluded (the placeholder records the dynamic type by design)", "cases on which a matcher reports an error on D or D' are counted as trivial"],
         stages=[dict(name="masked", run="^TestC16_", quick=600, thorough=8000, shards_quick=4, shards_thorough=16)],
     ),
@@ -165,7 +165,7 @@ PROPS = {
              "11-14 failing matchers in one call, YAML nulls (null, ~, bare key) as wrong-type targets, matcher pairs where the second fails only because the first (satisfiable) one replaced its target (parent then child; the same Type twice), options chained or applied as statements, "
              "mode in {create allowed, update enabled with an existing different entry, Update(false), CI}, JSON / standalone JSON / YAML, 0-2 calls before and 1-3 calls after. "
              "Oracle: one failure naming match.<Name>(\"<path>\") for every failing matcher, nothing written (mtime), later calls land in slots k+1...; with only tolerated missing paths the call proceeds per mode. "
-             "Round 6: a matcher that lists a missing path first and an existing path second fails as a whole - the next, satisfiable matcher on that path sees the original value; satisfiable matchers must NOT be named. Round 8: matchers that were relaxed (ErrOnMissingPath(false)) before their final strict setting; the slot already holds exactly the document (matchers added to a test that has its snapshot). non-trivial = a failing and a satisfiable matcher together, or update-enabled mode with an existing entry, or a tolerated missing path; distinct = distinct canonical JSON",
+             "Round 6: a matcher that lists a missing path first and an existing path second fails as a whole - the next, satisfiable matcher on that path sees the original value; satisfiable matchers must NOT be named. Round 8: matchers that were relaxed (ErrOnMissingPath(false)) before their final strict setting; the slot already holds exactly the document (matchers added to a test that has its snapshot). Round 9: the empty path and existing paths with a blank in front / behind (JSON: they address nothing); ONE Type matcher listing a wrong-typed path and a missing path (both named). non-trivial = a failing and a satisfiable matcher together, or update-enabled mode with an existing entry, or a tolerated missing path; distinct = distinct canonical JSON",
         assumptions=ASSUME_WB,
         stages=[dict(name="failures", run="^TestC17_", quick=600, thorough=8000, shards_quick=4, shards_thorough=16)],
     ),
@@ -174,7 +174,7 @@ PROPS = {
              "multi-document streams with ---/... (separators also with trailing blanks, tabs or a comment), %YAML directive, anchors/aliases, trailing blank lines, with/without final newline, optional leading BOM; LF only), split by the YAML library itself into valid and invalid; "
              "constructed invalid inputs (unclosed flow/quote, tab indentation, undefined alias, duplicate keys next to merge keys); Go values of string/byte-like kinds ([]uint8-kind enums, named strings, net.IP) stored as the YAML library marshals them with the fixed encoder options; Go values (nested maps with varied key order, tagged structs, multi-line strings); documents with a matcher (final newline). "
              "Oracle: stored body == escape(input) byte-for-byte, read-only replay passes without writing; Go values store identical text in two processes; invalid = one `invalid yaml` failure, nothing written, ordinal consumed. "
-             "Round 6: the document replaces another document stored under the id (update run, rewrite path). Round 7: JSON-syntax documents with duplicate keys are invalid YAML; after recording, a Clean run that prunes an obsolete neighbour rewrites the file - the document is still stored verbatim. Round 8: flow collections broken over TAB-indented lines (valid YAML); Go values in which one map / pointer is reachable along two paths. non-trivial = document with a separator line, comment, header-looking line, terminator in a block scalar, no final newline or trailing blank lines; or a Go value; or an invalid input; distinct = distinct canonical JSON",
+             "Round 6: the document replaces another document stored under the id (update run, rewrite path). Round 7: JSON-syntax documents with duplicate keys are invalid YAML; after recording, a Clean run that prunes an obsolete neighbour rewrites the file - the document is still stored verbatim. Round 8: flow collections broken over TAB-indented lines (valid YAML); Go values in which one map / pointer is reachable along two paths. Round 9: an empty, non-nil matcher slice passed with a document (stored verbatim like with no matchers). non-trivial = document with a separator line, comment, header-looking line, terminator in a block scalar, no final newline or trailing blank lines; or a Go value; or an invalid input; distinct = distinct canonical JSON",
         assumptions=ASSUME_WB + ["validity is delegated to goccy/go-yaml (only used to split the domain); the verbatim clause is judged on bytes"],
         stages=[dict(name="yaml", run="^TestC18_", quick=800, thorough=10000, shards_quick=4, shards_thorough=16)],
     ),
@@ -204,7 +204,7 @@ PROPS = {
              "./x/../x, absolute}, Filename (incl. '%', dots, unicode, spaces), Ext (incl. '.snap', '.%s'), package-level functions, call shapes {direct, closure, helper in the test file, helper in a non-test file, helper in another package} "
              "with 0-100 extra frames, inside subtests / nested subtests with names containing '%', '/', spaces, rejected calls (invalid JSON/YAML) that still consume their ordinal, optionally a second test function from another test file in the same process, subtests whose function is declared in a NON-test file (suite shape); odd shards run the program from a directory with '%' and a blank in its name. "
              "Every case is executed nine times: normal / -trimpath build x cwd = package dir / foreign cwd x GOFLAGS in the environment (unset, -trimpath, unrelated, -trimpath=false, -gcflags=-trimpath=/src), and once with -test.count=2; each time the exact set of created files (and the entry ids inside multi-entry files) must equal the statement's formula computed from the known source path. "
-             "Round 6: Dir explicitly empty and `.`, an absolute Dir 240 bytes deep (whole paths beyond 259 bytes), a 72-byte sub test name. Round 8: sub test names with : ? * \" < > | (standalone names change only `/`). Round 7: calls made through an assertion helper that lives in a NON-test file called testing.go inside a directory ending in `testing`. every case is non-trivial (nine build/cwd/GOFLAGS/-count variants); classes record option kinds, shapes, helper depth; distinct = distinct canonical JSON",
+             "Round 6: Dir explicitly empty and `.`, an absolute Dir 240 bytes deep (whole paths beyond 259 bytes), a 72-byte sub test name. Round 8: sub test names with : ? * \" < > | (standalone names change only `/`). Round 9: Filename `users.snap`, `report.snap.txt`, ` pad`, `pad `; Ext `.v1 `, `_golden`; Dir with a blank at its edge. Round 7: calls made through an assertion helper that lives in a NON-test file called testing.go inside a directory ending in `testing`. every case is non-trivial (nine build/cwd/GOFLAGS/-count variants); classes record option kinds, shapes, helper depth; distinct = distinct canonical JSON",
         assumptions=["the file name is asserted only when the first *_test.go frame is the file that declares the test function (the scenario program is built that way)", "-trimpath is asserted for cwd = package directory only (documented limitation otherwise)"],
         stages=[dict(name="location", engine="bb", run="^TestC11_", quick=60, thorough=1500, shards_quick=8, shards_thorough=16, trimpath=True)],
     ),
@@ -214,7 +214,7 @@ PROPS = {
              "optionally the snapshot directory is removed between two calls: the remaining calls must then behave as in a process that makes only them. "
              "test_order stage (black box): 2-3 test functions of a real test program (different test files, helpers in non-test files and another package) - the snapshots of test X when all tests run == when -run ^X$ runs alone. "
              "race stage: 2-4 goroutines x 1-5 calls through ONE shared Config under the race detector. "
-             "Round 6: in every Config the harness builds, the caller's option slice is overwritten and reused for another WithConfig call after the Config was built. Round 7: JSON documents of equal length passed as []byte from ONE buffer the test keeps (input form bytes_reused). Round 8: Ext without a leading dot (`json`, `_golden`) among the option values. non-trivial = MatchStandaloneJSON followed by another API on a Config without Ext, or >= 3 APIs, or a JSON option overridden in B, or the directory removed (differential); two test files (test_order); >= 2 APIs (race); distinct = distinct canonical JSON",
+             "Round 6: in every Config the harness builds, the caller's option slice is overwritten and reused for another WithConfig call after the Config was built. Round 7: JSON documents of equal length passed as []byte from ONE buffer the test keeps (input form bytes_reused). Round 8: Ext without a leading dot (`json`, `_golden`) among the option values. Round 9: Config A built as WithConfig() with the options applied to it afterwards; B as a struct copy of A with overrides applied afterwards; a witness through a Config built from a directory only. non-trivial = MatchStandaloneJSON followed by another API on a Config without Ext, or >= 3 APIs, or a JSON option overridden in B, or the directory removed (differential); two test files (test_order); >= 2 APIs (race); distinct = distinct canonical JSON",
         assumptions=ASSUME_WB + ["package-level Match* functions are exercised by the black-box engine only (they derive the directory from the source location)",
                                  "a race report is always a real race; absence is limited to the executed accesses"],
         stages=[
@@ -227,7 +227,7 @@ PROPS = {
         rule="cases are ordered pairs of texts (+ colour flag): exhaustive over line sequences of a 3-letter alphabet, "
              "random pairs from the hostile line alphabet related by 1-3 edits (1 in 40 made right after a 64-1100 KiB comparison: the report must equal the one in isolation; CRLF-vs-LF presentations of the same lines), large texts (>10 / >=200 lines with popular lines), "
              "and enumerated huge texts whose number of distinct lines sits on 0x7FFF/0x8001, 0xD7FF-0xE001, 0xFFFD-0x10001. "
-             "Round 7: edits that change only terminal control sequences or invisible characters, a label glued in front of the first line of a text of up to 40 lines, a text cut at a dashed line. non-trivial = texts differ and (>=2 hunks, or repeated lines, or >10 lines, or whitespace-only / invalid-UTF-8 difference, or inline path taken); "
+             "Round 7: edits that change only terminal control sequences or invisible characters, a label glued in front of the first line of a text of up to 40 lines, a text cut at a dashed line. Round 9: 21 / 30 / 64 separate hunks (every tenth line of a long text changed). non-trivial = texts differ and (>=2 hunks, or repeated lines, or >10 lines, or whitespace-only / invalid-UTF-8 difference, or inline path taken); "
              "distinct = distinct canonical JSON of the case",
         assumptions=["oracles R1-R4 of DESIGN §6/C13 are implemented independently of the diff code; the report grammar parsed is the NO_COLOR one"],
         stages=[
